@@ -7,7 +7,7 @@ def _load(pid):
     m = _ilu.module_from_spec(sp); m.H = H; sp.loader.exec_module(m)
     return m
 F = "harness/c11_msg_allocator.c"
-UW = tuple([f"{e}.{k}:10" for e in ("h_alloc", "h_free", "h_on_gvt", "h_fini") for k in range(6)] +
+UW = tuple([f"{e}.{k}:10" for e in ("h_alloc", "h_free", "h_on_gvt", "h_fini", "h_pack") for k in range(6)] + ["memcpy.0:50", "h_pack.6:50"] +
            ["occurrences.0:10", "msg_allocator_on_gvt.0:6", "msg_allocator_fini.0:6", "msg_allocator_fini.1:6"])
 def A(name, entry, desc, canaries=1):
     return H(name="C11." + name, file=F, entry=entry, funcs=["msg_allocator_" + name.split("_", 2)[-1]], kind="bounded", bound="pools of at most 3 buffers, payload <= 4096",
@@ -16,6 +16,7 @@ OWN = [
     A("msg_allocator_alloc", "h_alloc", "buffer has room for header + payload, pl_size recorded, pooled buffer reused for small requests", canaries=2),
     A("msg_allocator_free", "h_free", "small buffers pooled once and stay allocated, large ones released"),
     A("msg_allocator_on_gvt", "h_on_gvt", "deferred buffers released exactly when strictly below the GVT, each once; the lazy removal loses no entry", canaries=2),
+    A("msg_allocator_pack", "h_pack", "fields and payload bytes copied exactly (payload <= 48 bytes, also past the 32 inline bytes), inside the buffer", canaries=2),
     A("msg_allocator_fini", "h_fini", "both pools emptied, every pooled buffer released once (CBMC free checks)"),
 ]
 FA = "harness/c11_array.c"
@@ -42,6 +43,13 @@ def _pick(pid, prefixes, tier="quick"):
 HARNESSES = OWN + _pick("C18", ["C18.Random", "C18.RandomU64"]) + _pick("C15", ["C15.fini"]) + \
     _pick("C06", ["C06.process_lp_fini", "C06.fossil_history"]) + _pick("C12", ["C12.rs_malloc", "C12.rs_free", "C12.buddy_free.g12", "C12.buddy_malloc.g12"]) + \
     _pick("C05", ["C05.ckpt_take", "C05.ckpt_restore"])
+_c05 = _load("C05")
+HARNESSES = HARNESSES + [
+    H(name="C11.model_allocator_lp_fini", file=_c05.FMM, entry="h_lp_fini_modular", funcs=["model_allocator_lp_fini"], kind="bounded", bound="<= 3 arenas, <= 3 logs",
+      unwindset=_c05._UWM, timeout=600, mem_gb=8, objbits=8, geometry=(4, 1),
+      desc="LP shutdown of the allocator: every checkpoint and every arena released exactly once, then the two tables"),
+    dict(next(h for h in _c05.HARNESSES if h["name"] == "C05.multi_take.modular"), name="C11.C05.multi_take.modular"),
+]
 HARNESSES = [h for h in HARNESSES if "RandomRange" not in h["name"]]
 EXPLANATION = ("Every harness of every property runs with CBMC's safety families (--bounds-check --pointer-check --pointer-overflow-check "
                "--div-by-zero-check --signed-overflow-check --undefined-shift-check --pointer-primitive-check) on the real code, so each function under "
